@@ -115,6 +115,16 @@ def check_anchor(c, anchor, site, ctx):
         if not vals or not vals <= set(anchor["values"]):
             return False, "argument %d of %s takes values %s, reviewed set is %s" % (anchor["param"], callee, sorted(vals), anchor["values"])
         return True, "argument %d of %s is always one of %s" % (anchor["param"], callee, sorted(vals))
+    if t == "str-bounds":
+        # the numeric part (start <= end <= len) of a str range index is proved by the value analysis; the reviewed
+        # argument only covers the char-boundary condition
+        an = analysis(c)
+        it = an.interp(ctx["fnp"][site.fn])
+        st = it.state_before_term(site.bb) if it else None
+        r = ledger.discharge(site, it, st, allow_str=True) if st is not None else None
+        if r:
+            return True, "numeric bounds proved (%s: %s)" % r
+        return False, "numeric bounds start <= end <= len are no longer provable"
     if t == "fn-calls":
         # the enclosing function (or a named one) contains a call to `callee`
         path = ctx["fnp"][site.fn] if "fn" not in anchor else [f["path"] for f in c.fns if S.fn_display(f).endswith(anchor["fn"])][0]
